@@ -111,14 +111,9 @@
 (def QUOTE-TYPES {:tuple true :array true :table true :struct true :symbol true :buffer true})
 (defn q [x] (if (QUOTE-TYPES (type x)) (tuple 'quote x) x))
 
-# The fiber's stack is grown once before the call under test: on the pinned tree the VM keeps a stale `stack` pointer
-# across an operator-method call that reallocates the fiber stack (heap-use-after-free, corpus/C15/method-stack-uaf.janet,
-# reported separately by checks/C15.py); pre-growing keeps that defect from masking route differences.
-(defn warm [n] (if (= n 0) 0 (+ 1 (warm (- n 1)))))
-
 (defn run-fun [fun args]
   (def marker @[])   # unique: distinguishes a normal return from the fiber being ended early by (propagate x dead-fiber)
-  (def fib (fiber/new (fn [] (warm 60) [marker (fun ;args)]) :a))
+  (def fib (fiber/new (fn [] [marker (fun ;args)]) :a))
   (def trace @[])
   (var v (resume fib))
   (var n 0)
